@@ -422,15 +422,10 @@ Proof.
 Qed.
 
 (* ------------------------------------------------------------------ *)
-(* the same for every pattern with closed complements (multi-character
-   collating elements allowed: in a complemented bracket expression they are
-   dropped by the translation and cannot match one character anyway)     *)
-
-Lemma single_width_closed_atom a : single_width_atom a = true -> closed_complement a = true.
-Proof.
-  destruct a as [c| | |b]; try reflexivity. cbn [single_width_atom closed_complement].
-  intros H. apply negb_true_iff in H. rewrite H, andb_false_r. reflexivity.
-Qed.
+(* the same for every pattern (multi-character collating elements allowed:
+   in a complemented bracket expression they are dropped by the translation
+   and cannot match one character anyway; if nothing else is left the
+   translation is "any character")                                       *)
 
 Lemma set_has1_filter items x :
   set_has1 (filter (fun it => negb (bitem_multi it)) items) x = set_has1 items x.
@@ -453,30 +448,47 @@ Proof.
     rewrite (class_matches _ _ Hcs), set_has1_filter. reflexivity.
 Qed.
 
-Lemma atom_sem_of_closed a n :
-  closed_complement a = true -> node_of_atom a = Some n -> atom_sem a n.
+Lemma set_has1_all_multi items x : forallb bitem_multi items = true -> set_has1 items x = false.
 Proof.
-  intros Hp Hn.
+  unfold set_has1. induction items as [|it items IH]; [reflexivity|]. cbn [forallb existsb].
+  intros H. apply andb_true_iff in H as [Hm H].
+  destruct (multi_ok it Hm) as (_ & v & _ & _ & Hno). rewrite Hno, IH by exact H. reflexivity.
+Qed.
+
+(* a complemented bracket expression all of whose members are multi-character *)
+Lemma atom_sem_compl_all_multi b :
+  b_complement b = true -> forallb bitem_multi (b_items b) = true ->
+  atom_sem (ABracket b) (RS SAny).
+Proof.
+  intros Hc Ha. apply (atom_sem_single _ _ (bracket_has1 b)).
+  - apply bracket_lang_single. right. exact Hc.
+  - intros x. cbn [smatch]. unfold bracket_has1. rewrite Hc, (set_has1_all_multi _ x Ha). reflexivity.
+Qed.
+
+Lemma atom_sem_of_any a n : node_of_atom a = Some n -> atom_sem a n.
+Proof.
+  intros Hn.
   destruct (single_width_atom a) eqn:Hsw; [apply atom_sem_of; assumption|].
   destruct a as [c| | |b]; try discriminate.
   cbn [single_width_atom] in *. apply negb_false_iff in Hsw.
   cbn [node_of_atom] in Hn. unfold node_of_bracket in Hn. rewrite Hsw in Hn. cbn [negb] in Hn.
   destruct (is_nil (b_items b)); [discriminate|].
   destruct (b_complement b) eqn:Hc; cbn [negb] in Hn.
-  - destruct (all_some (map citem_of _)) as [cs|] eqn:Ea; [|discriminate].
-    inversion Hn; subst. apply atom_sem_compl_multi; assumption.
+  - destruct (forallb bitem_multi (b_items b)) eqn:Ha.
+    + inversion Hn; subst. apply atom_sem_compl_all_multi; assumption.
+    + destruct (all_some (map citem_of _)) as [cs|] eqn:Ea; [|discriminate].
+      inversion Hn; subst. apply atom_sem_compl_multi; assumption.
   - destruct (all_some (map alt_of (b_items b))) as [alts|] eqn:Ea; [|discriminate].
     inversion Hn; subst. apply atom_sem_alt; assumption.
 Qed.
 
-Lemma nodes_sem_closed : forall a ns,
-  closed_complements a = true -> all_some (map node_of_atom a) = Some ns -> Forall2 atom_sem a ns.
+Lemma nodes_sem_any : forall a ns,
+  all_some (map node_of_atom a) = Some ns -> Forall2 atom_sem a ns.
 Proof.
-  induction a as [|at_ a IH]; intros ns Hp H.
+  induction a as [|at_ a IH]; intros ns H.
   - inversion H; subst. constructor.
   - destruct (all_some_cons _ _ _ _ H) as (n & ns' & Hn & Hns & ->).
-    unfold closed_complements in Hp. cbn [forallb] in Hp. apply andb_true_iff in Hp as [H1 H2].
-    constructor; [apply atom_sem_of_closed; assumption|apply IH; assumption].
+    constructor; [apply atom_sem_of_any; assumption|apply IH; assumption].
 Qed.
 
 Lemma alt_ok_iff it : item_ok it = is_some (alt_of it).
@@ -496,25 +508,32 @@ Proof.
   - cbn [forallb]. rewrite (nonmulti_ok_iff it Hm), IH. reflexivity.
 Qed.
 
-Lemma atom_ok_node_closed a : closed_complement a = true -> atom_ok a = is_some (node_of_atom a).
+Lemma forallb_ok_all_multi items : forallb bitem_multi items = true -> forallb item_ok items = true.
 Proof.
-  intros Hp. destruct (single_width_atom a) eqn:Hsw; [apply atom_ok_node; exact Hsw|].
+  induction items as [|it items IH]; [reflexivity|]. cbn [forallb]. intros H.
+  apply andb_true_iff in H as [Hm H]. destruct (multi_ok it Hm) as (Hok & _).
+  rewrite Hok, IH by exact H. reflexivity.
+Qed.
+
+Lemma atom_ok_node_any a : atom_ok a = is_some (node_of_atom a).
+Proof.
+  destruct (single_width_atom a) eqn:Hsw; [apply atom_ok_node; exact Hsw|].
   destruct a as [c| | |b]; try discriminate.
-  cbn [single_width_atom closed_complement] in *. apply negb_false_iff in Hsw.
+  cbn [single_width_atom] in *. apply negb_false_iff in Hsw.
   cbn [atom_ok node_of_atom]. unfold node_of_bracket. rewrite Hsw. cbn [negb].
   destruct (is_nil (b_items b)); [reflexivity|]. cbn [negb andb].
   destruct (b_complement b) eqn:Hc; cbn [negb].
-  - rewrite forallb_ok_filter, <- all_some_is_some.
-    destruct (all_some (map citem_of _)); reflexivity.
+  - destruct (forallb bitem_multi (b_items b)) eqn:Ha.
+    + rewrite (forallb_ok_all_multi _ Ha). reflexivity.
+    + rewrite forallb_ok_filter, <- all_some_is_some.
+      destruct (all_some (map citem_of _)); reflexivity.
   - transitivity (is_some (all_some (map alt_of (b_items b)))).
     + rewrite all_some_is_some. apply forallb_ext_in. intros it _. apply alt_ok_iff.
     + destruct (all_some (map alt_of (b_items b))); reflexivity.
 Qed.
 
-Lemma valid_nodes_closed a :
-  closed_complements a = true -> valid_ast a = is_some (all_some (map node_of_atom a)).
+Lemma valid_nodes_any a : valid_ast a = is_some (all_some (map node_of_atom a)).
 Proof.
-  intros Hp. rewrite all_some_is_some. unfold valid_ast. apply forallb_ext_in.
-  intros at_ Hin. apply atom_ok_node_closed. unfold closed_complements in Hp.
-  rewrite forallb_forall in Hp. apply Hp. exact Hin.
+  rewrite all_some_is_some. unfold valid_ast. apply forallb_ext_in.
+  intros at_ Hin. apply atom_ok_node_any.
 Qed.
